@@ -2277,6 +2277,12 @@ class unyt_array(np.ndarray):
         [[8. 8.]
          [8. 8.]] km*s**2
         """
+        for u in (self.units, getattr(b, "units", NULL_UNIT)):
+            if u.base_offset and u.dimensions is temperature:
+                raise InvalidUnitOperation(
+                    "Quantities with units of Fahrenheit or Celsius "
+                    "cannot be multiplied, divided, subtracted or added."
+                )
         res_units = self.units * getattr(b, "units", NULL_UNIT)
         # ndarray.dot hands the out buffer back: give it the bare buffer, so that
         # the buffer's old units do not end up multiplied into the result
